@@ -303,6 +303,12 @@ func recvFieldName(cc *ssa.CallCommon) string {
 	if fv := fieldOf(cc.Args[0]); fv != nil {
 		return fv.Name()
 	}
+	// a table kept behind an atomic pointer: g.calls.Load().Compute(...)
+	if c, ok := cc.Args[0].(*ssa.Call); ok && isStdMethod(c, "sync/atomic", "Pointer", "Load") {
+		if fv := recvField(c); fv != nil {
+			return fv.Name()
+		}
+	}
 	return ""
 }
 
